@@ -210,6 +210,15 @@ class Validator:
         See https://github.com/Julian/jsonschema/issues/119
         """
 
+        # an error on an item in a list of values (e.g. SIZE 10.5 20 or a POINTS pair)
+        # applies to the keyword holding the list
+        while (
+            path
+            and isinstance(path[-1], int)
+            and not isinstance(dictutils.findkey(rootdict, *path), dict)
+        ):
+            path = path[:-1]
+
         if not path:
             # error applies to the root type
             d = rootdict
